@@ -16,7 +16,10 @@ What is translated is found by CALL GRAPH from the public entry points, never by
   plus structural facts: the entry block precedes the cache lookup and the agents (`Tr.run_entry_first`); the handler
   starts with the failure-recording call (`Tr.run_exception_records_failure`); no other statement of run() calls a
   breaker-writing method or writes a breaker field (`Tr.run_other_breaker_sites`); no method outside the call graph of
-  the entry points writes a breaker field (`Tr.other_breaker_writers`).
+  the entry points writes a breaker field (`Tr.other_breaker_writers`); the `on_block` / `on_permit` callbacks are reached
+  only from top-level statements of run() that come AFTER the breaker-update block - not from the entry block, not from
+  the `try` around the agent calls or its handler, not from the update block itself (`Tr.run_callbacks_after_update`):
+  a callback that raises cannot keep an outcome from being counted.
 Each is proved equal to the hand-written model by `c08_translation_agrees_<name>`.
 
 Supported subset — nothing more:
@@ -655,6 +658,46 @@ class Tr:
                 return False
         return True
 
+    HOOK_ATTRS = ("on_block", "on_permit")
+
+    def hook_methods(self):
+        """methods through which a callback attribute can be reached: they read self.on_block / self.on_permit, or use
+        getattr(self, <anything that is not a constant naming another attribute>), or call such a method"""
+        def direct(fn):
+            for x in ast.walk(fn):
+                if is_self(x) and x.attr in self.HOOK_ATTRS:
+                    return True
+                if (isinstance(x, ast.Call) and isinstance(x.func, ast.Name) and x.func.id in ("getattr", "vars")
+                        and x.args and isinstance(x.args[0], ast.Name) and x.args[0].id == "self"):
+                    a = x.args[1] if len(x.args) > 1 else None
+                    if not (isinstance(a, ast.Constant) and isinstance(a.value, str) and a.value not in self.HOOK_ATTRS):
+                        return True
+                if isinstance(x, ast.Attribute) and x.attr == "__dict__":
+                    return True
+            return False
+        hk = {m for m, fn in self.fns.items() if m != "__init__" and direct(fn)}
+        changed = True
+        while changed:
+            changed = False
+            for m in self.fns:
+                if m not in hk and m != "__init__" and self.calls[m] & hk:
+                    hk.add(m)
+                    changed = True
+        return hk
+
+    def touches_hooks(self, node, hk):
+        for x in ast.walk(node):
+            if is_self(x) and x.attr in self.HOOK_ATTRS:
+                return True
+            if self_call(x) and x.func.attr in hk:
+                return True
+            if (isinstance(x, ast.Call) and isinstance(x.func, ast.Name) and x.func.id in ("getattr", "vars")
+                    and x.args and isinstance(x.args[0], ast.Name) and x.args[0].id == "self"):
+                a = x.args[1] if len(x.args) > 1 else None
+                if not (isinstance(a, ast.Constant) and isinstance(a.value, str) and a.value not in self.HOOK_ATTRS):
+                    return True
+        return False
+
     def analyse_run(self):
         """locate the blocks of run() and resolve the roles of the private methods by call graph"""
         fn = self.fns.get("run")
@@ -745,6 +788,15 @@ class Tr:
                 others += self.touches_breaker(s)
         res["handler"] = info["rf"] is not None
         res["others"] = others
+        # callbacks: reached only from top-level statements after the update block
+        hk = self.hook_methods() - {"run"}
+        after = False
+        if len(update) == 1:
+            sites = [i for i, s in enumerate(body) if self.touches_hooks(s, hk)]
+            after = all(i > update[0] and i not in entry and i not in tries for i in sites)
+            # ... and nothing the breaker methods themselves call reaches a callback
+            after = after and not ({info["rf"], info["rs"], info["cc"]} & hk)
+        res["callbacks_after_update"] = after
         # methods outside the call graph of the entry points that write breaker fields
         reach, todo = set(), list(ENTRY_POINTS)
         while todo:
@@ -815,10 +867,11 @@ def render(src: str, cls_obj=None):
         try:
             parts = tr.run_parts(ri)
         except Unsupported as e:
-            parts = {"entry": e, "update": e, "entry_first": False, "handler": False, "others": 999, "outside_writers": ["?"]}
+            parts = {"entry": e, "update": e, "entry_first": False, "handler": False, "others": 999, "outside_writers": ["?"],
+                     "callbacks_after_update": False}
     else:
         parts = {"entry": Unsupported(str(glob)), "update": Unsupported(str(glob)), "entry_first": False,
-                 "handler": False, "others": 999, "outside_writers": ["?"]}
+                 "handler": False, "others": 999, "outside_writers": ["?"], "callbacks_after_update": False}
     emit("run_entry", f"{P} : Breaker × Bool", "run(): the entry block (state after, let in?)", lambda: parts["entry"])
     emit("run_update", f"{P} (success blocked : Bool) (z y : Cls) : Breaker",
          "run(): the breaker-update block after the gate", lambda: parts["update"])
@@ -831,9 +884,12 @@ def render(src: str, cls_obj=None):
             "    and the update block -/\n"
             f"def Tr.run_other_breaker_sites : Nat := {parts['others']}\n\n"
             f"/-- methods outside the call graph of the entry points that write a breaker field: {esc(parts['outside_writers'])} -/\n"
-            f"def Tr.other_breaker_writers : Nat := {len(parts['outside_writers'])}\n\n")
+            f"def Tr.other_breaker_writers : Nat := {len(parts['outside_writers'])}\n\n"
+            "/-- the on_block / on_permit callbacks are reached only from top-level statements of run() after the breaker-update\n"
+            "    block (not from the entry block, the try around the agent calls, its handler, or the breaker methods) -/\n"
+            f"def Tr.run_callbacks_after_update : Bool := {b(parts['callbacks_after_update'])}\n\n")
     out += "end Operon.Cffl\n"
-    info["structure"] = {k: parts[k] for k in ("entry_first", "handler", "others", "outside_writers")}
+    info["structure"] = {k: parts[k] for k in ("entry_first", "handler", "others", "outside_writers", "callbacks_after_update")}
     info["roles"] = {"record_success": rs, "record_failure": rf, "check_circuit": cc}
     return out, info
 
